@@ -39,7 +39,7 @@ COMPONENTS = {
     "stub_or_harness": ["history generator", "spec/value generators", "reference spec parser (which members are public)", "sim/interleave.py scheduler (real threads, the schedule decides every switch)"],
 }
 FAULT_KINDS = ["preemption_between_lines", "sibling_instance_created", "setattr_attempt", "delattr_attempt", "source_list_mutation", "returned_value_mutation_attempt"]
-PROBES = ["receive_buffer_reused_after_deserialize", "two_caller_threads_interleaved", "looked_at_like_a_python_object", "snapshot_unavailable", "member_unreadable_before_assignment", "serialize_into_shared_writer", "twin_instance_compared", "reincarnated_instance_compared", "serialize_into_nonempty_writer", "unserializable_instance_observed", "invalid_instance", "live_sequence_view_argument", "packet_write_method", "serialize_into_sanitising_writer", "array_element_mutation_attempt", "array_of_structs", "optional_array_present", "blob_on_deserialized_instance", "case_data_mutated_through_parent",
+PROBES = ["first_use_by_two_caller_threads", "receive_buffer_reused_after_deserialize", "two_caller_threads_interleaved", "looked_at_like_a_python_object", "snapshot_unavailable", "member_unreadable_before_assignment", "serialize_into_shared_writer", "twin_instance_compared", "reincarnated_instance_compared", "serialize_into_nonempty_writer", "unserializable_instance_observed", "invalid_instance", "live_sequence_view_argument", "packet_write_method", "serialize_into_sanitising_writer", "array_element_mutation_attempt", "array_of_structs", "optional_array_present", "blob_on_deserialized_instance", "case_data_mutated_through_parent",
           "one_shot_iterator_argument", "nested_instance_setattr", "byte_size_setattr", "first_serialize_failed_skipped",
           "tree_rejected", "returned_value_was_mutable"]
 
@@ -48,8 +48,12 @@ def generate(streams, tier):
     rng = streams.get("spec")
     tree = specgen.gen_tree(rng, "full")
     prng = streams.get("plan")
-    return {"tree": tree, "tier": tier, "case_seed": prng.randrange(1 << 30),
+    plan = {"tree": tree, "tier": tier, "case_seed": prng.randrange(1 << 30),
             "instances_per_class": 2 if tier == "quick" else 5}
+    if prng.random() < 0.1:
+        # the very first serializations after the library has been imported are made by two caller threads at once
+        plan["first_use"] = [prng.randrange(1, 12) for _ in range(prng.randrange(4, 80))]
+    return plan
 
 
 import collections.abc
@@ -106,6 +110,9 @@ class Instance:
                 return LiveView(lst)
             return lst
         if "enum" in value:
+            if value["v"] % 4 == 1:
+                self.plain_enum_numbers = getattr(self, "plain_enum_numbers", 0) + 1
+                return value["v"]           # the application names the value by its number (the members ARE integers)
             return te.bridge.cls(value["enum"])(value["v"])
         if "blob" in value:
             return bytes.fromhex(value["blob"])
@@ -599,11 +606,62 @@ def concurrent_callers(inst, ops, case, first, res, tr, viol):
                         f"(schedule {case['interleave'][:12]}..., {il.switches} switches)")
     return None
 
+def first_use_by_two_callers(te, plan, res, tr):
+    """Right after the import (nothing has been serialized yet in this interpreter state): two caller threads serialize
+    different instances into their own writers under a scheduled interleaving; afterwards every instance, serialized
+    again by a single caller, must give the bytes it gave then (lazily built tables, caches filled on first use)."""
+    from ..interleave import Interleaver, InterleaveStall
+    rng = random.Random(plan["case_seed"] ^ 0xF1257)
+    insts = []
+    for cd in sorted(te.all_classes(), key=lambda c: c.name)[:10]:
+        try:
+            val = valuegen.ValueGen(te.spec, rng, p_none=0.0).gen_class(cd)
+            insts.append(Instance(te, cd.name, "ctor", val, None, 0))
+        except Exception:  # noqa
+            continue
+    if len(insts) < 2:
+        return None
+
+    def caller(mine):
+        def run():
+            out = []
+            for inst in mine:
+                try:
+                    out.append(inst.serialize())
+                except Exception as e:  # noqa
+                    out.append(("raised", type(e).__name__))
+            return out
+        return run
+
+    il = Interleaver(plan["first_use"], lambda filename: "eolib-verif-" in filename)
+    try:
+        results, errors = il.run(caller(insts[0::2]), caller(insts[1::2]))
+    except InterleaveStall as e:
+        return {"kind": "concurrent-callers-stalled", "signature": "C19|concurrent-callers-stalled|first-use",
+                "detail": f"two caller threads making the first serializations did not both finish: {e}", "step": 0}
+    res.count("probe.first_use_by_two_caller_threads")
+    res.count("fault.preemption_between_lines", il.switches)
+    later = [caller(insts[0::2])(), caller(insts[1::2])()]
+    tr.ev("first-use", il.switches, tuple(il.lines), [results[k] == later[k] for k in (0, 1)])
+    for k in (0, 1):
+        if errors[k] is not None or results[k] != later[k]:
+            j = next((i for i, (a, b) in enumerate(zip(results[k] or [], later[k])) if a != b), 0)
+            name = (insts[0::2] if k == 0 else insts[1::2])[j].cls_name if results[k] else "?"
+            show = lambda x: x.hex() if isinstance(x, bytes) else x   # noqa
+            return {"kind": "concurrent-serialization-differs", "signature": "C19|concurrent-serialization-differs|first-use",
+                    "detail": f"{name}: serialized by caller thread {k} as one of the first serializations after import, while a second "
+                              f"thread did the same, gave {show(results[k][j]) if results[k] else errors[k]!r}; the same instance serialized "
+                              f"again later gives {show(later[k][j])} (schedule {plan['first_use'][:12]}..., {il.switches} switches)", "step": 0}
+    return None
+
+
 def execute(plan, env):
     res = Result()
     res.evaluations = 0
     tr = Trace(keep=env.keep_trace)
     try:
+        if plan.get("first_use") and "cases" not in plan:
+            env.cache.clear()          # a fresh import of the library: module-level state as after interpreter start
         te = get_tree_env(env, plan["tree"])
     except TreeRejected:
         res.count("probe.tree_rejected")
@@ -621,6 +679,13 @@ def execute(plan, env):
             if res.violation:
                 break
     else:
+        if plan.get("first_use"):
+            res.violation = first_use_by_two_callers(te, plan, res, tr)
+            if res.violation:
+                res.evaluations = 1
+                res.digest = tr.digest()
+                res.steps = tr.steps
+                return res
         rng = random.Random(plan["case_seed"])
         for cd in sorted(te.all_classes(), key=lambda c: c.name):
             vg = valuegen.ValueGen(te.spec, rng, p_none=0.2)
